@@ -338,8 +338,8 @@ func VerifyFunc(prog *Program, db *ContractDB, fn *ssa.Function, ct *Contract, c
 				}
 				var fs []*Term
 				for _, f := range c.pc {
-					if !x.defFacts[f] && !hasQuant(f, qcache) {
-						fs = append(fs, f)
+					if !x.defFacts[f] {
+						fs = append(fs, x.qfPart(f, qcache))
 					}
 				}
 				ds = append(ds, x.b.And(fs...))
@@ -362,8 +362,8 @@ func VerifyFunc(prog *Program, db *ContractDB, fn *ssa.Function, ct *Contract, c
 							}
 							var fs []*Term
 							for _, f := range c.pc {
-								if !x.defFacts[f] && !hasQuant(f, qcache) {
-									fs = append(fs, f)
+								if !x.defFacts[f] {
+									fs = append(fs, x.qfPart(f, qcache))
 								}
 							}
 							rs = append(rs, x.b.And(fs...))
@@ -697,6 +697,27 @@ func (x *Exec) learnBounds(t *Term) {
 			b.known[l] = r
 		}
 	}
+}
+
+// qfPart weakens a fact to its quantifier-free part: conjunctions and the right-hand sides of
+// implications are taken apart, every other formula with a quantifier inside becomes true.
+func (x *Exec) qfPart(t *Term, cache map[*Term]bool) *Term {
+	if !hasQuant(t, cache) {
+		return t
+	}
+	switch t.Op {
+	case "and":
+		var out []*Term
+		for _, a := range t.Args {
+			out = append(out, x.qfPart(a, cache))
+		}
+		return x.b.And(out...)
+	case "=>":
+		if !hasQuant(t.Args[0], cache) {
+			return x.b.Implies(t.Args[0], x.qfPart(t.Args[1], cache))
+		}
+	}
+	return x.b.True()
 }
 
 func hasQuant(t *Term, cache map[*Term]bool) bool {
